@@ -1,4 +1,5 @@
 import LexVerif.Proof.ParseNumberTotal
+import LexVerif.Proof.PrefixRepair
 /-!
 # Proof.ParseNumberTotalPhases — the invariant through the phases of `parse_number` (release mode)
 -/
@@ -83,36 +84,39 @@ theorem readIfValue_csum (hc : Rel c) (k : Comp) (v : Nat) (cased : Bool) (b : B
 with `prefix_start ≤ buffer_length`, counts untouched) -/
 theorem prefixPhase_tot (hc : Rel c) (b : Bytes) (hv : b.index ≤ b.slc.length) :
     TotP Prod.snd b (prefixPhase c b) := by
-  unfold prefixPhase
-  split
-  · obtain ⟨zero, b1, hr, ha, _⟩ := readIfValueCased_tot hc .integer 48 b hv
-    have hc1 := readIfValueCased_csum hc .integer 48 b hv zero b1 hr
-    simp only [hr, bind, Except.bind, pure, Except.pure]
-    cases zero with
-    | false => exact ha
-    | true =>
-      simp only [if_true]
-      obtain ⟨hit, b2, hr2, ha2⟩ := readIfValue_tot hc .integer c.basePrefix c.caseSensitiveBasePrefix b1 ha.valid'
-      have hc2 := readIfValue_csum hc .integer _ _ b1 ha.valid' hit b2 hr2
-      simp only [hr2]
-      by_cases hR : prefixRepair = true
-      · rw [if_pos hR]
+  obtain ⟨zero, b1, hr, ha, _⟩ := readIfValueCased_tot hc .integer 48 b hv
+  obtain ⟨hit, b2, hr2, ha2⟩ := readIfValue_tot hc .integer c.basePrefix c.caseSensitiveBasePrefix b1 ha.valid'
+  apply LexVerif.Proof.PrefixRepair.prefixPhase_cases
+  · intro _
+    rw [LexVerif.Proof.PrefixRepair.prefixPhaseRepaired_eq]
+    split
+    · simp only [hr]
+      cases zero with
+      | false => exact ha
+      | true =>
+        simp only [hr2]
         cases hit with
         | true =>
-          simp only [if_true]
+          simp only
           split
           · exact (ha.trans ha2).valid
           · exact ha.trans ha2
         | false =>
-          have hsl : b2.slc = b.slc := hc2.2.trans hc1.2
-          simp only [Bool.false_eq_true, if_false]
-          rw [if_pos (by rw [hsl]; exact hv)]
-          exact ⟨hsl, hv, Nat.le_refl _, by simp only [csum] at *; omega⟩
-      · rw [if_neg hR]
+          simp only [hv, if_true]
+          exact Adv.refl b hv
+    · exact Adv.refl b hv
+  · intro _
+    unfold prefixPhaseCurrent
+    split
+    · simp only [hr, bind, Except.bind, pure, Except.pure]
+      cases zero with
+      | false => exact ha
+      | true =>
+        simp only [if_true, hr2]
         split
         · exact (ha.trans ha2).valid
         · exact ha.trans ha2
-  · exact Adv.refl b hv
+    · exact Adv.refl b hv
 
 theorem sliceTo_ok (start : Bytes) (n : Nat) (tag : String) (h : n ≤ start.slc.length - start.index) :
     sliceTo c start n tag = .ok ((start.slc.drop start.index).take n) := by
